@@ -15,9 +15,16 @@ fn verif_dir() -> String {
     std::env::var("VERIF_DIR").unwrap_or_else(|_| "/verif".to_string())
 }
 
+static LAST_PANIC: std::sync::Mutex<Option<(String, u32)>> = std::sync::Mutex::new(None);
+
 fn main() {
     // caught panics are part of normal operation: keep them quiet, count them instead
-    std::panic::set_hook(Box::new(|_| {}));
+    // (only the location of the last one is remembered, for the top-level handler below)
+    std::panic::set_hook(Box::new(|info| {
+        if let Some(l) = info.location() {
+            *LAST_PANIC.lock().unwrap_or_else(|e| e.into_inner()) = Some((l.file().to_string(), l.line()));
+        }
+    }));
     // error values are created by the million; never capture backtraces for them
     std::env::set_var("RUST_BACKTRACE", "0");
     std::env::set_var("RUST_LIB_BACKTRACE", "0");
@@ -73,9 +80,18 @@ fn main() {
     }
     let start = Instant::now();
     let mut rep = Report::new(&id, tier, seed);
-    if !props::run(&id, &mut rep) {
-        eprintln!("unknown property {}", id);
-        std::process::exit(2);
+    // a panic that escapes the per-execution handlers is a defect of the harness, never a verdict
+    match std::panic::catch_unwind(std::panic::AssertUnwindSafe(|| props::run(&id, &mut rep))) {
+        Ok(true) => {}
+        Ok(false) => {
+            eprintln!("unknown property {}", id);
+            std::process::exit(2);
+        }
+        Err(e) => {
+            let msg = e.downcast_ref::<String>().cloned().or_else(|| e.downcast_ref::<&str>().map(|s| s.to_string())).unwrap_or_default();
+            println!("MACHINERY-ERROR property={} the harness panicked outside an explored execution: {} (last panic at {:?})", id, msg, LAST_PANIC.lock().map(|g| g.clone()).unwrap_or(None));
+            std::process::exit(2);
+        }
     }
     let wall = start.elapsed().as_secs_f64();
     let known = Known::load(&format!("{}/KNOWN_FINDINGS.txt", verif_dir()));
@@ -93,7 +109,9 @@ fn main() {
         // determinism: the recorded case must reproduce twice with the same signature
         let mut stable = true;
         for _ in 0..2 {
-            match props::replay(&id, &v.replay) {
+            let replayed = std::panic::catch_unwind(std::panic::AssertUnwindSafe(|| props::replay(&id, &v.replay)))
+                .unwrap_or_else(|_| Err(format!("the replay panicked (last panic at {:?})", LAST_PANIC.lock().map(|g| g.clone()).unwrap_or(None))));
+            match replayed {
                 Ok(list) if list.iter().any(|(sig, _)| *sig == v.sig) => {}
                 Ok(other) => {
                     stable = false;
